@@ -93,6 +93,9 @@ func cmdRun(args []string) int {
 		v, _ := strconv.ParseInt(p[1], 10, 64)
 		eng.params[p[0]] = v
 	}
+	if v, ok := eng.params["_maxsteps"]; ok {
+		eng.maxSteps = v
+	}
 	for _, k := range loadKnown().Findings {
 		if k.Status == "known" {
 			eng.knownActive[k.ID] = true
